@@ -373,6 +373,96 @@ func c14Run(c *fw.Ctx) {
 		}
 		c.Class("reuse")
 	}
+	// marshalling an accessory BEFORE it is added (and numbered) must not influence the database served afterwards
+	for ti, t := range tmpls {
+		idx++
+		if !c.Mine(idx) || ti%3 != 0 {
+			continue
+		}
+		c.Eval(1)
+		cas := c14Case{Tmpls: []string{"premarshal:" + t.Name}}
+		if p := guard(func() {
+			a := t.Build(0)
+			json.Marshal(a)
+			cont := accessory.NewContainer()
+			cont.AddAccessory(a)
+			j1, _ := json.Marshal(cont)
+			cont2 := accessory.NewContainer()
+			cont2.AddAccessory(t.Build(0))
+			j2, _ := json.Marshal(cont2)
+			if !bytes.Equal(j1, j2) {
+				c.Report("premarshal-differs", "an accessory that was JSON-encoded before being added is served differently from a fresh build: "+t.Name, cas)
+			} else if why := c14WellFormed(j1); why != "" {
+				c.Report("malformed/"+why+"/premarshal", "attribute database JSON: "+why, cas)
+			}
+		}); p != nil {
+			c.Report("panic/premarshal", fmt.Sprintf("%v", p), cas)
+		}
+		c.Class("premarshal")
+	}
+	// services without characteristics, in every position
+	for pos := 0; pos < 3; pos++ {
+		idx++
+		if !c.Mine(idx) {
+			continue
+		}
+		c.Eval(1)
+		tm := c14Tmpl{fmt.Sprintf("empty-service@%d", pos), func(id uint64) *accessory.Accessory {
+			a := accessory.New(accessory.Info{Name: "E", ID: id}, accessory.TypeOther)
+			svcs := []*service.Service{service.NewSwitch().Service, service.NewOutlet().Service}
+			for i := 0; i <= len(svcs); i++ {
+				if i == pos {
+					a.AddService(service.New("E0"))
+				}
+				if i < len(svcs) {
+					a.AddService(svcs[i])
+				}
+			}
+			return a
+		}}
+		c14Exec(c, []c14Tmpl{tm}, []uint64{0})
+		c14Exec(c, []c14Tmpl{tm, tm}, []uint64{0, 5})
+	}
+	// removal: a rejected or foreign accessory is removed, then the id is tried again
+	for _, x := range []uint64{1, 2} {
+		idx++
+		if !c.Mine(idx) {
+			continue
+		}
+		c.Eval(1)
+		cas := c14Case{Tmpls: []string{"remove-non-member"}, IDs: []uint64{x}}
+		if p := guard(func() {
+			cont := accessory.NewContainer()
+			a := accessory.NewSwitch(accessory.Info{Name: "A", ID: x})
+			b := accessory.NewOutlet(accessory.Info{Name: "B", ID: x})
+			d := accessory.NewLightbulb(accessory.Info{Name: "D", ID: x})
+			okA := cont.AddAccessory(a.Accessory) == nil
+			okB := cont.AddAccessory(b.Accessory) == nil
+			cont.RemoveAccessory(b.Accessory) // clean up the rejected one
+			okD := cont.AddAccessory(d.Accessory) == nil
+			seen := map[uint64]bool{}
+			for _, acc := range cont.Accessories {
+				if seen[acc.ID] {
+					c.Report("aid-duplicate/after-remove-non-member", fmt.Sprintf("after removing an accessory that was never accepted, a second accessory with id %d is accepted (adds: %v %v %v)", acc.ID, okA, okB, okD), cas)
+				}
+				seen[acc.ID] = true
+			}
+			// removing a member frees its id for a new accessory, and only then
+			cont.RemoveAccessory(a.Accessory)
+			e := accessory.NewSwitch(accessory.Info{Name: "E", ID: x})
+			cont.AddAccessory(e.Accessory)
+			seen = map[uint64]bool{}
+			for _, acc := range cont.Accessories {
+				if seen[acc.ID] {
+					c.Report("aid-duplicate/after-remove-member", fmt.Sprintf("duplicate id %d after remove + add", acc.ID), cas)
+				}
+				seen[acc.ID] = true
+			}
+		}); p != nil {
+			c.Report("panic/remove", fmt.Sprintf("%v", p), cas)
+		}
+		c.Class("remove")
+	}
 	// large deterministic compositions
 	for _, n := range []int{40, 150} {
 		idx++
@@ -397,7 +487,7 @@ func init() {
 	fw.Register(&fw.Check{
 		ID:    "C14",
 		Level: "exploration",
-		Rule:  "exhaustive enumeration of container compositions: templates = every accessory constructor of the library plus a custom accessory per service constructor × {plain, hidden, primary, linked}; explicit id ∈ {auto,1,2,3,7}; all single accessories, all pairs (quick: first element restricted to library accessories and every 8th custom one), all triples over a reduced template set, two large compositions (40, 150 accessories), and for every service constructor an accessory rebuilt with a previously published service object. Each container is built twice. Oracle: accepted accessories have pairwise distinct non-zero ids, instance ids distinct and non-zero per accessory, both builds give byte-identical JSON, JSON is well-formed HAP (aid/iid/type everywhere, valid format, permissions within the HAP vocabulary, linked ids resolvable). distinct_nontrivial = distinct (size, accepted count, id-mode tuple) classes",
+		Rule:  "exhaustive enumeration of container compositions: templates = every accessory constructor of the library plus a custom accessory per service constructor × {plain, hidden, primary, linked}; explicit id ∈ {auto,1,2,3,7}; all single accessories, all pairs (quick: first element restricted to library accessories and every 8th custom one), all triples over a reduced template set, two large compositions (40, 150 accessories), for every service constructor an accessory rebuilt with a previously published service object, accessories JSON-encoded before being added, services without characteristics in every position, and removal of rejected / member accessories followed by another add. Each container is built twice. Oracle: accepted accessories have pairwise distinct non-zero ids, instance ids distinct and non-zero per accessory, both builds give byte-identical JSON, JSON is well-formed HAP (aid/iid/type everywhere, valid format, permissions within the HAP vocabulary, linked ids resolvable). distinct_nontrivial = distinct (size, accepted count, id-mode tuple) classes",
 		Run:   c14Run,
 		Replay: func(c *fw.Ctx, raw json.RawMessage) {
 			var cas c14Case
